@@ -117,7 +117,8 @@ struct Fixture {
     }
 
     template<class H>
-    void traverse(H& h, int tid, const Act& a, bool write_handle, bool first_use = true)
+    void traverse(H& h, int tid, const Act& a, bool write_handle, bool first_use = true,
+                  const std::function<void()>* at_pause = nullptr)
     {
         Traversal tv;
         tv.thread = tid;
@@ -134,6 +135,7 @@ struct Fixture {
             if (it == h->end() || h->end() == it) vrf::violation("oracle:iterator_comparisons_disagree", "{}");
             tv.seen.push_back((idx % 3 == 1) ? Val<T>::id(*(it.operator->())) : Val<T>::id(*it));
             if (idx == a.arg) {
+                if (at_pause) (*at_pause)();
                 for (int p = 0; p < a.pause; p++) vrf::hyield();
                 // re-read the element after the pause: it must still be intact
                 (void)Val<T>::id(*it);
@@ -185,6 +187,30 @@ struct Fixture {
                             moved = alias;
                         }
                         traverse(moved, tid, a, false, false);
+                        break;
+                    }
+                    if (a.pause > 0 && a.arg % 3 == 2) {
+                        // handles kept in a container that relocates its elements while one of them is in the middle of a
+                        // traversal: the relocated handle is still the registered one, the paused iterator stays protected
+                        std::vector<RH> pool;
+                        pool.reserve(1);
+                        pool.push_back(std::move(h));
+                        struct PoolHandle {
+                            std::vector<RH>* v;
+                            auto operator->() const { return (*v)[0].operator->(); }
+                            auto& operator*() const { return *(*v)[0]; }
+                        } ph{&pool};
+                        std::function<void()> grow = [&] {
+                            for (int k = 0; k < 2; k++) {
+                                pool.push_back(g->lock_read());
+                                (void)pool.back()->begin();
+                                handles_taken.fetch_add(1, std::memory_order_relaxed);
+                                vrf::user_point();
+                            }
+                            pool.pop_back();
+                            pool.shrink_to_fit();
+                        };
+                        traverse(ph, tid, a, false, true, &grow);
                         break;
                     }
                     traverse(h, tid, a, false);
